@@ -9,6 +9,8 @@ props = sorted(f[:-3].upper() for f in os.listdir(os.path.join(HERE, "oracles"))
 out_path = os.path.join(HERE, "reports", "matrix.json")
 matrix = json.load(open(out_path)) if os.path.exists(out_path) else {}
 for sid in ids:
+    if sid in matrix and len(matrix[sid]) == len(props):
+        continue
     d = os.path.join(HERE, "seeded", sid)
     wt = tempfile.mkdtemp(prefix="mx_", dir="/tmp")
     os.rmdir(wt)
@@ -18,7 +20,7 @@ for sid in ids:
         row = {}
         for pid in props:
             t = time.time()
-            p = subprocess.run(["/venv/bin/python", os.path.join(HERE, "check.py"), pid], cwd=HERE, env=dict(os.environ, VERIF_REPO=wt, VERIF_REPLAY_DIR=os.path.join(wt, "_replays"), VERIF_EVIDENCE_DIR=os.path.join(wt, "_evidence")), capture_output=True, text=True)
+            p = subprocess.run(["/venv/bin/python", os.path.join(HERE, "check.py"), pid, "--runs", os.environ.get("MATRIX_RUNS", "600")], cwd=HERE, env=dict(os.environ, VERIF_REPO=wt, VERIF_REPLAY_DIR=os.path.join(wt, "_replays"), VERIF_EVIDENCE_DIR=os.path.join(wt, "_evidence")), capture_output=True, text=True)
             sigs = sorted(set(l.split("signature=")[1].split(" ")[0] for l in p.stdout.splitlines() if "signature=" in l and l.startswith("  signature=")))
             row[pid] = {"rc": p.returncode, "signatures": sigs[:8], "wall": round(time.time() - t)}
             print(sid, pid, p.returncode, sigs[:2], flush=True)
